@@ -170,6 +170,7 @@ class SubjectAnalysis:
             self.subscribe_rules(S, short, fns)
             self.counter_writers(S, short, fns)
             self.unsubscribe_rules(S, short, fns)
+            self.other_members(S, short, fns)
         self.observer_rules()
         self.subscription_rules()
 
@@ -622,6 +623,31 @@ class SubjectAnalysis:
                     self.add('SUB.6', False, inst, tgt.shortloc(), f'{g.name.split("::")[-1]}() sets the id counter back (`{tgt.text()[:40]}`): the next subscription receives an id that was handed out before — a stale Subscription handle becomes valid again and '
                              'unsubscribes the new observer, and a notify round that still holds the old id in its snapshot treats the removed observer as active', key='SUB.6|counter-writers')
                 else: self.add('SUB.6', None, inst, tgt.shortloc(), 'the value written to the id counter is not followed')
+
+    def other_members(self, S, short, fns):
+        """the pairing of SUB.6 for every other public member that changes the subscription tables (an `unsubscribeAll`, a
+        `subscribeOnce`, a `clear`): what leaves / enters m_observers leaves / enters m_activeSubscriptions on the same path"""
+        role = {f.name for f in fns.values() if f is not None}
+        for g in self.facts.fns:
+            if g.d.get('classfull') != S or g.d.get('ctor') or g.d.get('dtor') or g.d.get('lambda') or g.name in role: continue
+            if g.d.get('access') != 'public' or g.d.get('implicit') or not g.d.get('has_body', True): continue
+            nm = g.name.split('::')[-1]
+            if nm.startswith('operator='): continue
+            try: res = run_paths(self.facts, g, ObsDomain())
+            except Exception: continue
+            for P, E in res:
+                if P.end in ('throw', 'noreturn'): continue
+                ro = [e for e in E if on_container(e, OBS, REMOVALS)]; ra = [e for e in E if on_container(e, ACT, REMOVALS)]
+                io = [e for e in E if on_container(e, OBS, INSERTS)]; ia = [e for e in E if on_container(e, ACT, INSERTS)]
+                if not (ro or ra or io or ia): continue
+                inst = f'{short}::{nm}: what it takes out of / puts into m_observers it takes out of / puts into m_activeSubscriptions'
+                if ro and not ra:
+                    self.add('SUB.6', False, inst, ro[0].site, f'{nm}() removes entries from m_observers (`{ro[0].name.split("::")[-1]}`) and leaves their ids in m_activeSubscriptions: a notify round that is under way still '
+                             'holds these observers in its snapshot and their ids pass the validity test, so observers that were unsubscribed are invoked; their stale handles keep reporting valid', key=f'SUB.6|other-members|{nm}')
+                elif io and not ia:
+                    self.add('SUB.6', False, inst, io[0].site, f'{nm}() adds an entry to m_observers without adding its id to m_activeSubscriptions: notify() skips every entry whose id is not active, the observer is never invoked', key=f'SUB.6|other-members|{nm}')
+                elif (ro and ra) or (io and ia):
+                    self.add('SUB.6', True, inst, (ro or io)[0].site, key=f'SUB.6|other-members|{nm}')
 
     def unsubscribe_rules(self, S, short, fns):
         f = fns['unsubscribe']
